@@ -42,6 +42,38 @@ def mc(run):
         run.notes.append(f'pipeline model, variant {variant}: {rv.violated} violated after {len(rv.error_trace)} states (expected)')
 
 
+def apalache(run):
+    """The version bookkeeping of the pipeline (ApaPipeline.tla, typed) has an INDUCTIVE invariant: Init => IndInv, IndInv /\\ Next => IndInv',
+    IndInv => Safety - for steps of any history, with three executors (Apalache; TLC explores bounded histories only)."""
+    import shutil
+    import subprocess
+    exe = shutil.which('apalache-mc')
+    if not exe:
+        run.notes.append('apalache-mc is not on PATH: the inductive-invariant obligations of ApaPipeline were skipped')
+        return
+    spec_dir = os.path.join(os.path.dirname(os.path.dirname(os.path.dirname(os.path.abspath(__file__)))), 'spec')
+    work = os.path.join(run.scratch, 'apalache')
+    os.makedirs(work, exist_ok=True)
+    for f in ('ApaPipeline.tla', 'MC_ApaPipeline.tla'):
+        shutil.copy(os.path.join(spec_dir, f), work)
+    for name, args in (('Init => IndInv', ['--init=Init', '--inv=IndInv', '--length=0']),
+                       ("IndInv /\\ Next => IndInv'", ['--init=IndInv', '--inv=IndInv', '--length=1']),
+                       ('IndInv => Safety', ['--init=IndInv', '--inv=Safety', '--length=0'])):
+        try:
+            pr = subprocess.run([exe, 'check'] + args + ['--out-dir=' + os.path.join(work, 'out'), 'MC_ApaPipeline.tla'], cwd=work, stdout=subprocess.PIPE,
+                                stderr=subprocess.STDOUT, text=True, timeout=600)
+        except subprocess.TimeoutExpired:
+            run.notes.append(f'Apalache: {name}: no answer within 600 s (obligation not decided in this run)')
+            continue
+        if 'EXITCODE: OK' in pr.stdout:
+            run.notes.append(f'Apalache: {name} holds (ApaPipeline, 3 executors)')
+        elif 'EXITCODE: ERROR (12)' in pr.stdout:          # a counterexample: the specification is wrong
+            raise core.MachineryError(f'Apalache: obligation {name} of ApaPipeline has a counterexample: ' + pr.stdout[-400:])
+        else:                                                # the tool could not run here (environment): reinforcement only, TLC has decided the bounded instance
+            run.notes.append(f'Apalache: {name}: the tool gave no verdict here ({pr.stdout.strip().splitlines()[-1][:120] if pr.stdout.strip() else "no output"})')
+    shutil.rmtree(os.path.join(work, 'out'), ignore_errors=True)
+
+
 def version_of_text(text, pos):
     inst = repo.load_class(text)()
     s, c, r = pos['S1A1']
@@ -258,5 +290,6 @@ def gen(run):
 
 def check(run):
     mc(run)
+    apalache(run)
     gen(run)
     trace(run)
